@@ -135,12 +135,21 @@ def run(P, rep, tier):
     r1b = rep.rule('C19-R1b', 'the constructor passes every keyword (name, value) to setattr or raises; AttributeError '
                    'becomes DiffXUnknownOptionError', reference=1)
     init = D.base.find_method('__init__')
-    loops = [n for n in walk_no_nested(init.node) if isinstance(n, ast.For)]
+    # the loop over the keyword mapping: in __init__ itself, or in a method __init__ hands its **kwargs to
+    holders = [init]
+    kw0 = init.node.args.kwarg.arg if init.node.args.kwarg else None
+    for n in walk_no_nested(init.node):
+        if isinstance(n, ast.Call) and isinstance(n.func, ast.Attribute) and isinstance(n.func.value, ast.Name) \
+                and n.func.value.id == init.params()[0] and any(k.arg is None and isinstance(k.value, ast.Name) and k.value.id == kw0 for k in n.keywords):
+            h = D.base.find_method(n.func.attr)
+            if h is not None and h.node.args.kwarg:
+                holders.append(h)
+    loops = [(h, n) for h in holders for n in walk_no_nested(h.node) if isinstance(n, ast.For)]
     ok_loop = False
-    for lp in loops:
+    for holder, lp in loops:
         if not (isinstance(lp.iter, ast.Call) and isinstance(lp.iter.func, ast.Attribute) and lp.iter.func.attr == 'items'):
             continue
-        kwarg = init.node.args.kwarg.arg if init.node.args.kwarg else None
+        kwarg = holder.node.args.kwarg.arg if holder.node.args.kwarg else None
         if not (isinstance(lp.iter.func.value, ast.Name) and lp.iter.func.value.id == kwarg):
             continue
         ok_loop = True
@@ -160,6 +169,47 @@ def run(P, rep, tier):
     if not ok_loop:
         raise AnalysisError('constructor keyword loop not found in %s' % init.short)
 
+    # ---- R6 add_change / add_file are atomic ---------------------------------------------------
+    r6 = rep.rule('C19-R6', 'add_change()/add_file() with a rejected attribute raise before the tree is touched', reference=2)
+    for pcname, mname, ccname in (('DiffX', 'add_change', 'DiffXChangeSection'), ('DiffXChangeSection', 'add_file', 'DiffXFileSection')):
+        pcls = D.classes[pcname]
+        m = pcls.find_method(mname)
+        if m is None:
+            raise AnalysisError('%s.%s not found (anchor vanished)' % (pcname, mname))
+        names = [a_ for a_, k_, d_ in D.settable_names(D.classes[ccname]) if k_ == 'descriptor'] + ['no_such_attribute']
+        probs6 = {}
+        np6 = 0
+        raised = 0
+        for nm in names:
+            def thunk(nm=nm):
+                objs = D.build_tree(I)
+                parent = objs[pcname]
+                v = Unk('value', taint=['ARG'], src=('param', nm))
+                I.dirty = None
+                root = objs['DiffX']
+                I.effect_filter = lambda kind_, data: kind_ in ('attr-store', 'item-store', 'mutate', 'item-del') and \
+                    _in_tree(root, data.get('obj'))
+                I.frames = []
+                return I.call_function(m, [parent], {nm: v}, None, self_cls=pcls)
+            for path in I.explore(thunk):
+                np6 += 1
+                if np6 > 6000:
+                    raise AnalysisError('too many paths in %s.%s' % (pcname, mname))
+                if path.outcome == 'raise':
+                    raised += 1
+                    if I.dirty is not None:
+                        probs6.setdefault(norm(I.dirty.node)[:60], (nm, path.value.exc.exc_name, I.dirty))
+        I.effect_filter = None
+        if not raised:
+            raise AnalysisError('%s.%s: no rejecting path observed (idiom not recognised)' % (pcname, mname))
+        if probs6:
+            for txt, (nm, exn, ev) in sorted(probs6.items()):
+                rep.violation(r6, 'add-not-atomic:%s.%s:%s' % (pcname, mname, txt), ev.loc,
+                              '%s.%s(%s=<rejected value>) raises %s after the tree was already changed at [%s]: a half-initialised '
+                              'section stays attached' % (pcname, mname, nm, exn, txt), path=['%s.%s' % (pcname, mname)])
+        else:
+            rep.ok(r6, '%s.%s' % (pcname, mname), {'paths': np6, 'rejecting_paths': raised})
+
     # ---- R4 equality coverage ---------------------------------------------------
     r4 = rep.rule('C19-R4', 'on every path where __eq__ may return true every state slot of both operands was compared', reference=6)
     eq_compared = {}
@@ -171,6 +221,8 @@ def run(P, rep, tier):
         npaths = 0
         compared_all = None
         impure = {}
+        derived_only = set()
+        I.record_compares = True
 
         def thunk():
             a = D.build_tree(I)[cname]
@@ -204,6 +256,17 @@ def run(P, rep, tier):
                     elif ev.data['obj'] is b:
                         read_b.add(ev.data['name'])
             got = read_a & read_b
+            # a slot read from both operands must also be *compared as it is*: an == / != whose operands are the two
+            # slot values themselves (not something derived from them, e.g. a stripped or lower-cased copy)
+            direct = set()
+            for ev in path.events[mark:]:
+                if ev.kind == 'compare' and ev.data['op'] in ('Eq', 'NotEq'):
+                    l_, r_ = ev.data['l'], ev.data['r']
+                    for s_ in got:
+                        va, vb = a.attrs.get(s_), b.attrs.get(s_)
+                        if (_same_val(l_, va) and _same_val(r_, vb)) or (_same_val(l_, vb) and _same_val(r_, va)):
+                            direct.add(s_)
+            derived_only |= {s_ for s_ in got if s_ not in direct and s_ not in ('_level',)}
             # a slot also counts as covered when a compared slot holds it (file section: subsections list)
             covered = set(got)
             for s_ in list(got):
@@ -221,6 +284,11 @@ def run(P, rep, tier):
             rep.violation(r4, 'eq-mutates:%s:%s' % (cname, txt), ev.loc,
                           '%s.__eq__ writes to the operands it compares (%s in %s): a cached or defaulted value can go stale, so trees '
                           'that differ compare equal (or the comparison itself changes the tree)' % (cname, txt, ev.fn), path=[cname + '.__eq__', ev.fn])
+        if derived_only:
+            rep.violation(r4, 'eq-derived:%s:%s' % (cname, ','.join(sorted(derived_only))), '%s:%d' % (cls.module.relpath, cls.node.lineno),
+                          '%s.__eq__ can return true on a path where %s of the two operands are read but never compared with each other as '
+                          'they are (only values derived from them are): sections that differ there can compare equal'
+                          % (cname, sorted(derived_only)), path=[cname + '.__eq__'])
         if missing_any:
             rep.violation(r4, 'eq-misses:%s:%s' % (cname, ','.join(sorted(missing_any))),
                           '%s:%d' % (cls.module.relpath, cls.node.lineno),
@@ -265,6 +333,19 @@ def run(P, rep, tier):
     nondet = [imp for imp in wm.imports.values() if imp[1].split('.')[0] in ('random', 'time', 'uuid', 'datetime', 'os')]
     if nondet:
         rep.violation(r5, 'nondeterminism-import', wm.relpath, 'dom/writer.py imports %s' % nondet)
+
+
+def _same_val(x, v):
+    if x is v:
+        return True
+    if isinstance(x, AList) and not x.unknown:
+        # a list built from the slot values themselves (element-wise == compares them as they are)
+        if any(it is v for it in x.items):
+            return True
+        if isinstance(v, AList) and not v.unknown and all(any(it is vi for it in x.items) for vi in v.items):
+            return True
+    return is_concrete(x) and is_concrete(v) and not isinstance(concrete(x), (ADict, AList)) and type(concrete(x)) is type(concrete(v)) \
+        and concrete(x) == concrete(v)
 
 
 def _in_tree(root, target):
